@@ -53,6 +53,7 @@ static int ref_isbell(int c)
 	return INBM(1, c) || INBM(2, c);
 }
 
+static int ref_cwid(unsigned c, int pos);
 static void part_a(void)
 {
 	int c, w, i, lo, hi, plo, phi;
@@ -83,6 +84,13 @@ static void part_a(void)
 		nz += rw != 1 || rb;
 		if (uc_wid(buf) != rw || !!uc_isbell(buf) != rb) {
 			nv_viol("c17-width-class", "kind=codepoint cp=U+%04X uc_wid=%d ref=%d uc_isbell=%d ref=%d", c, uc_wid(buf), rw, !!uc_isbell(buf), rb);
+			if (nv_nviol > 20)
+				break;
+		}
+		/* the cells a character takes when drawn: a placeholder's declared width, one cell for the
+		 * replacement of a non-printable character (whatever its width class), else its class */
+		if (ren_cwid(buf, 0) != ref_cwid(c, 0)) {
+			nv_viol("c17-cells", "kind=codepoint cp=U+%04X is laid out with %d cells, reference %d (width class %d, non-printable %d)", c, ren_cwid(buf, 0), ref_cwid(c, 0), rw, rb);
 			if (nv_nviol > 20)
 				break;
 		}
